@@ -50,8 +50,126 @@ def jobs(ctx):
     return js + [(c, {}) for c in cfgs]
 
 
+def handler_level(ctx):
+    """send_out_state of the sampling / end-of-run handlers on constructed active states (several active branches,
+    also two active point masses of ONE composite object and whole composite objects): every unit of every branch
+    must come back time-sliced to the event time — bit-exact against Model/TimeSlice.v inside Coq, and within the
+    rounding bound of the exact trajectory (Fractions)."""
+    import math
+    from fractions import Fraction as Fr
+    from common import f2b, b2f
+    rng = ctx.rng
+    cases = []
+    for _ in range(ctx.n(120, 2000)):
+        dim = rng.choice([2, 3])
+        Ls = [rng.choice([1.0, 2.0, 0.7, 3.5])] * dim if rng.random() < 0.5 else \
+            [rng.choice([1.0, 2.0, 0.7, 3.5, 1.5]) for _ in range(dim)]
+        interval = rng.choice([0.25, 0.3, 0.56789, 1.0])
+        k = rng.randrange(1, 12)
+        T = k * interval
+        d = rng.randrange(dim)
+        v = [0.0] * dim
+        v[d] = rng.choice([1.0, 2.0, 0.5])
+
+        def unit(ident, moving, scale=1.0):
+            ts = rng.random() * T
+            return {"id": ident, "pos": [f2b(rng.random() * L) for L in Ls],
+                    "vel": [f2b(x * scale) for x in v] if moving else None,
+                    "ts": [f2b(math.floor(ts)), f2b(ts - math.floor(ts))] if moving else None, "children": []}
+        kind = rng.choice(["leaf", "two_leaves_one_object", "whole_object", "two_objects", "atoms"])
+        branches = []
+        if kind == "atoms":
+            branches = [unit([i], True) for i in range(rng.randrange(1, 4))]
+        elif kind == "leaf":
+            r = unit([0], True, 1.0 / 3)
+            r["children"] = [unit([0, 1], True)]
+            branches = [r]
+        elif kind == "two_leaves_one_object":
+            for j in (0, 2):
+                r = unit([0], True, 2.0 / 3)
+                r["children"] = [unit([0, j], True)]
+                branches.append(r)
+        elif kind == "whole_object":
+            r = unit([1], True)
+            r["children"] = [unit([1, j], True) for j in range(3)]
+            branches = [r]
+        else:
+            for i in (0, 2):
+                r = unit([i], True, 1.0 / 3)
+                r["children"] = [unit([i, 1], True)]
+                branches.append(r)
+        cases.append({"L": [f2b(x) for x in Ls], "handler": rng.choice(["sampling", "sampling", "end_of_run"]),
+                      "interval": f2b(interval if True else 0.0), "k": k, "branches": branches, "kind": kind})
+    for c in cases:
+        if c["handler"] == "end_of_run":
+            c["interval"] = f2b(c["k"] * b2f(c["interval"]))
+    chunks = [cases[i:i + 200] for i in range(0, len(cases), 200)]
+    outs = []
+    for o in C.run_driver_parallel(ctx, "c17_slice", [{"cases": ch} for ch in chunks]):
+        outs += o["out"]
+    fails, terms, kinds = [], [], {}
+    for c, o in zip(cases, outs):
+        kinds[c["kind"]] = kinds.get(c["kind"], 0) + 1
+        if "exc" in o:
+            fails.append((c, "send_out_state raised %s: %s" % (o["exc"], o["msg"])))
+            continue
+        if o["n_branches"] != len(c["branches"]) or len(o["after"]) != len(o["before"]):
+            fails.append((c, "%d branches handed in, %d returned" % (len(c["branches"]), o["n_branches"])))
+            continue
+        Tq = Fr(b2f(o["T"][0])) + Fr(b2f(o["T"][1]))
+        for b, a in zip(o["before"], o["after"]):
+            if b["vel"] is None:
+                if a != b:
+                    fails.append((c, "a unit without velocity was changed"))
+                continue
+            if a["ts"] != o["T"] or a["vel"] != b["vel"]:
+                fails.append((c, "a moving unit was not stamped with the event time (time stamp %r, event time %r)"
+                              % (a["ts"], o["T"])))
+                break
+            t0 = Fr(b2f(b["ts"][0])) + Fr(b2f(b["ts"][1]))
+            for dd in range(len(b["pos"])):
+                L = Fr(b2f(c["L"][dd]))
+                y = Fr(b2f(b["pos"][dd])) + Fr(b2f(b["vel"][dd])) * (Tq - t0)
+                x = Fr(b2f(a["pos"][dd]))
+                dist = (x - y) % L
+                dist = min(dist, L - dist)
+                tol = (abs(Fr(b2f(b["vel"][dd]))) * max(Fr(1), abs(Tq - t0)) + max(abs(y), L)) / 2 ** 50
+                if dist > tol or not (0 <= x < L):
+                    fails.append((c, "unit not advanced to the event time: off by %.3e" % float(dist)))
+                    break
+
+        def bu(u):
+            return "(%s, %s, (%d%%Z, %d%%Z))" % (
+                C.coq_list(["%d%%Z" % x for x in u["pos"]]),
+                "None" if u["vel"] is None else "Some %s" % C.coq_list(["%d%%Z" % x for x in u["vel"]]),
+                (u["ts"] or [0, 0])[0], (u["ts"] or [0, 0])[1])
+        terms.append("{| sl_L := %s; sl_T := (%d%%Z, %d%%Z); sl_in := %s; sl_out := %s |}" % (
+            C.coq_list(["%d%%Z" % x for x in c["L"]]), o["T"][0], o["T"][1],
+            C.coq_list([bu(u) for u in o["before"]]), C.coq_list([bu(u) for u in o["after"]])))
+    nbad = 0
+    if terms:
+        neval, bad, nf, nok, err = C.eval_cases(ctx, "c17_slice", "Require Import JF.Base.F64 JF.Model.SliceCases.\n"
+                                                "From Coq Require Import ZArith.", terms, "check_slcase", "slcase",
+                                                per_file=150)
+        nbad = len(bad)
+        if err:
+            fails.append((None, "slice case files did not evaluate: " + err[-300:]))
+    if fails:
+        c, m = fails[0]
+        C.violation(ctx, "handler", {"kind": "c17-handler", "case": c, "message": m, "n_failing": len(fails)},
+                    "C17 fails on the implementation (handler level): " + m)
+    elif nbad:
+        C.violation(ctx, "handler-correspondence", {"kind": "c17-handler", "message": "out-state differs bit-wise from "
+                    "Model/TimeSlice.v in %d cases; correspondence check_slcase no longer checks" % nbad},
+                    "time-slice model and sampling handler disagree", nofail=True)
+    ctx.notes.append("handler level: %d constructed active states %r, %d failures, %d bit-level mismatches"
+                     % (len(cases), kinds, len(fails), nbad))
+
+
 def run(ctx, replay_jobs=None):
     C.build_scratch(ctx, exts=("heap", "mic", "ipc"))
+    if replay_jobs is None:
+        handler_level(ctx)
     hist.run_history_check(
         ctx, "C17", ("C17",), encoders(), TRUSTED, ASSUME,
         "Props/C17.v re-checked; sampling / dumping / end-of-run candidate times replayed bit-exactly through "
